@@ -193,7 +193,15 @@ func checkAssembled(t *fw.T, e *gen.Node, label string) {
 	prog := gen.Prog(gen.Let("v", e), gen.ExprStmt(gen.Asg("=", gen.Id("r"), e)))
 	want := prog.S()
 	var ap *ast.Program
-	if !t.Guard("assemble", nil, func() { ap = toProgram(prog) }) {
+	// every fourth group of cases assembles operator nodes with tokens that carry the type only
+	bareOperatorTokens = (t.Index/16)%4 == 3
+	ok := t.Guard("assemble", nil, func() { ap = toProgram(prog) })
+	if bareOperatorTokens {
+		bareOperatorTokens = false
+		label += "/operator tokens without text"
+		t.Count("trees_assembled_with_type_only_operator_tokens", 1)
+	}
+	if !ok {
 		return
 	}
 	checkRoundTrip(t, ap, want, label, func() string { return e.S() })
